@@ -161,6 +161,9 @@ def _verify(E, reg, qualname, rep, ghosts):
                     raise OutsideSubset(f"return value {res!r} does not fit declared type {rty}: {e}")
             frame = dict(entry_frame)
             frame["result"] = res
+            for gname, gexpr in c.ghost_exit.items():
+                gv = E.ev1p(parse_expr(gexpr), spec_state(E, s, frame, old=entry))
+                s.ghost[gname] = E.coerce(gv, s.ghost[gname].ty, s)
             for lname, binds in c.lemmas:
                 lemma_instance(E, reg, lname, binds, s, frame)
             for i, (lab, e) in enumerate(c.ensures):
@@ -216,9 +219,19 @@ def _verify(E, reg, qualname, rep, ghosts):
         o.status = "discharged" if found else ("undecided" if unknown else "refuted")
         o.backend = "z3-5.1(api) sat-check"
         o.reason = "" if found else ("cover: model search returned unknown" if unknown else "cover not reachable: the contract may be vacuous")
+        if o.status == "undecided":
+            # an undecided cover is not evidence of vacuity: it is reported as an assumption, not as an obligation
+            E.assumptions.add(f"cover not decided (model search unknown): {qualname} :: {cv[:80]}")
+            continue
         E.obls.append(o)
     # vacuity: at least one normal exit must not be provably infeasible (a contradictory assumption proves everything)
-    if normal_exits > 0:
+    if c.noreturn:
+        ok = any(s.status is not None and s.status[0] == "raise" and solve.check_sat(E.axioms_now() + s.pc, 2000) != "unsat" for s in outs)
+        if not ok:
+            o = Obligation(f"{qualname}/vacuity[some-exceptional-exit-is-consistent]", qualname, "vacuity", [], z3.BoolVal(False))
+            o.status, o.reason = "refuted", "no consistent exceptional exit of a noreturn function"
+            E.obls.append(o)
+    elif normal_exits > 0:
         feasible_exit = False
         for s in outs:
             if s.status is None or s.status[0] == "return":
